@@ -273,7 +273,15 @@ fn do_ops<W: Write + ?Sized>(w: &mut W, ops: &[WOp]) {
     for o in ops {
         match o {
             WOp::W(b) => {
-                let _ = w.write_all(b);
+                // pieces of even length go through `write_vectored` (two slices), the rest of the
+                // piece through `write_all`: the same bytes in the same order
+                if b.len() >= 2 && b.len() % 2 == 0 {
+                    let (x, y) = b.split_at(b.len() / 2);
+                    let n = w.write_vectored(&[std::io::IoSlice::new(x), std::io::IoSlice::new(y)]).unwrap_or(b.len());
+                    let _ = w.write_all(&b[std::cmp::min(n, b.len())..]);
+                } else {
+                    let _ = w.write_all(b);
+                }
             }
             WOp::F => {
                 let _ = w.flush();
